@@ -46,6 +46,68 @@ Proof.
 Qed.
 Print Assumptions c06_missing_key_is_domain_object.
 
+(* TrialScheduler.suggest applies the post-processing to EVERY suggestion that carries a
+   configuration: a new trial's and a resumed (promoted) trial's, whose configuration replaces
+   the trial's configuration in the backend. For a promotion under max_resource_attr the
+   scheduler hands the stored searcher configuration [cfg] (no constants) plus the next
+   milestone under the key [mra] (a constant of the space): the suggested configuration has
+   exactly the keys of the space, every other constant unchanged, [mra] = the milestone,
+   supplied hyperparameters cast and members. *)
+Theorem c06_suggest_postprocesses_new_and_resumed :
+  forall (K V D : Type) (keqb : K -> K -> bool) (cast : D -> V -> V) (valid : D -> V -> Prop),
+  (forall a b, keqb a b = true <-> a = b) ->
+  (forall d v, valid d v -> valid d (cast d v)) ->
+  forall (space : list (K * entry V D)), NoDup (map fst space) ->
+  forall (g : suggestion K V) (cfg : list (K * V)), sg_config K V g = Some cfg ->
+  exists o out,
+    ts_suggest K V D keqb cast space (Some g) = Some o /\ so_config K V D o = Some out /\
+    so_spawn_new K V D o = sg_spawn_new K V g /\ so_checkpoint K V D o = sg_checkpoint K V g /\
+    map fst out = map fst space /\
+    (forall k v, In (k, EConst v) space ->
+       lookupK K keqb k cfg = None \/ lookupK K keqb k cfg = Some v -> lookupK K keqb k out = Some (OVal v)) /\
+    (forall k d v, In (k, EDom d) space -> lookupK K keqb k cfg = Some v -> valid d v ->
+       lookupK K keqb k out = Some (OVal (cast d v)) /\ valid d (cast d v)).
+Proof.
+  intros K V D keqb cast valid Hk Hcast space Hnd g cfg Hg.
+  destruct (ts_suggest_config K V D keqb cast space g cfg Hg) as (o & H1 & H2 & H3 & H4).
+  exists o, (postprocess_config K V D keqb cast cfg space).
+  destruct (c06_keys_and_constants K V D keqb cast valid Hk Hcast space cfg Hnd) as (A & B & Cc).
+  split; [exact H1|]. split; [exact H2|]. split; [exact H3|]. split; [exact H4|].
+  split; [exact A|]. split; [exact B | exact Cc].
+Qed.
+Print Assumptions c06_suggest_postprocesses_new_and_resumed.
+
+Theorem c06_resume_suggestion_with_milestone :
+  forall (K V D : Type) (keqb : K -> K -> bool) (cast : D -> V -> V),
+  (forall a b, keqb a b = true <-> a = b) ->
+  forall (space : list (K * entry V D)) (cfg : list (K * V)) (mra : K) (maxv milestone : V),
+  NoDup (map fst space) -> In (mra, EConst maxv) space ->
+  let out := postprocess_config K V D keqb cast (with_milestone K V keqb cfg mra milestone) space in
+  map fst out = map fst space /\
+  lookupK K keqb mra out = Some (OVal milestone) /\
+  (forall k v, In (k, EConst v) space -> k <> mra -> lookupK K keqb k cfg = None ->
+     lookupK K keqb k out = Some (OVal v)) /\
+  (forall k d v, In (k, EDom d) space -> lookupK K keqb k cfg = Some v ->
+     lookupK K keqb k out = Some (OVal (cast d v))).
+Proof.
+  intros K V D keqb cast Hk space cfg mra maxv m Hnd Hin out. split; [apply postprocess_keys|].
+  assert (Hneq : forall a b, a <> b -> keqb a b = false).
+  { intros a b H. destruct (keqb a b) eqn:E; [apply Hk in E; contradiction | reflexivity]. }
+  split; [|split].
+  - unfold out. rewrite (postprocess_lookup K V D keqb cast Hk _ space mra _ Hnd Hin).
+    rewrite (lookupK_with_milestone K V keqb Hk). rewrite (proj2 (Hk mra mra) eq_refl). reflexivity.
+  - intros k v Hc Hne Hl. unfold out. rewrite (postprocess_lookup K V D keqb cast Hk _ space k _ Hnd Hc).
+    rewrite (lookupK_with_milestone K V keqb Hk), (Hneq k mra Hne), Hl. reflexivity.
+  - intros k d v Hd Hl. unfold out. rewrite (postprocess_lookup K V D keqb cast Hk _ space k _ Hnd Hd).
+    rewrite (lookupK_with_milestone K V keqb Hk).
+    assert (Hne : k <> mra).
+    { intros ->. assert (E : EDom d = EConst maxv); [|discriminate].
+      assert (H1 := lookupK_In_NoDup K keqb Hk mra (EDom d) space Hnd Hd).
+      assert (H2 := lookupK_In_NoDup K keqb Hk mra (EConst maxv) space Hnd Hin). congruence. }
+    rewrite (Hneq k mra Hne), Hl. reflexivity.
+Qed.
+Print Assumptions c06_resume_suggestion_with_milestone.
+
 (* --- initial points ------------------------------------------------------------------------
    impute_points_to_evaluate: duplicate-free, same elements as the imputed user list
    (None = one default configuration); RandomSearcher and GridSearcher: for EVERY history
@@ -120,6 +182,73 @@ Theorem c06_no_repeat_model_based :
   (mb_allow_dup C M s = false -> ~ In (ms c) (tj_excl C M meqb ms (mb_tj C M s) false)).
 Proof. intros C M meqb ms Hm. exact (mb_suggestion_not_excluded C M meqb ms Hm). Qed.
 Print Assumptions c06_no_repeat_model_based.
+
+(* restrict_configurations (RandomSearcher), in EVERY state with the initial points used up (hence
+   after every history): a suggestion is a member of the restricted list and not excluded; the
+   answer None means the restricted list is empty, or MAX_RETRIES consecutive position draws all
+   pointed at excluded entries. (That the searcher works on its own copy of the caller's list is an
+   object-identity fact, checked on the real classes by the driver's shared-list cases.) *)
+Theorem c06_restrict_configurations_step :
+  forall (C M : Type) (meqb : M -> M -> bool) (ms : C -> M),
+  (forall a b, meqb a b = true <-> a = b) ->
+  forall (s s' : rs_state C M) rc ds oc ds',
+  rs_p2e C M s = [] -> rs_restrict C M s = Some rc ->
+  rs_get_config C M meqb ms s ds = Ok (s', oc, ds') ->
+  match oc with
+  | Some c => In c rc /\ ~ In (ms c) (rs_excl C M s)
+  | None => rc = [] \/
+            exists ps, ds = map (@DPos C) ps ++ ds' /\ length ps = rs_retries C M s /\
+                       forall p, In p ps -> exists c, nth_error rc p = Some c /\ In (ms c) (rs_excl C M s)
+  end.
+Proof. intros C M meqb ms Hm. exact (rs_restrict_get_config C M meqb ms Hm). Qed.
+Print Assumptions c06_restrict_configurations_step.
+
+Example c06_example_restrict :
+  exists s, rs_ctor nat nat Nat.eqb (fun c => c) [] (DLBool false) false (Some [4; 6]%nat) (Some 9%nat) 3 = Ok s /\
+    snd (rs_run nat nat Nat.eqb (fun c => c) s [RGet nat [DPos 1]; RGet nat [DPos 0]; RGet nat []])
+    = [Ok (Some 6%nat); Ok (Some 4%nat); Ok None].
+Proof. eexists. split; reflexivity. Qed.
+
+(* Run level, for EVERY history of the GP searcher behind FIFOScheduler (suggestions with new
+   trial ids, finite results, NaN / infinite results, failures, in any order, any draws, any
+   candidate ranking and local optimiser per suggestion), allow_duplicates = False: the suggested
+   configurations are pairwise different, and every suggestion that is not an initial point has a
+   match string different from those of ALL earlier suggestions. The invariant is that the
+   configuration of every suggested trial stays in pending U failed U observed: a finite result
+   moves it to observed, a failure to failed, a NaN / infinite result marks it failed
+   (fix commit for finding F-C06-3). *)
+Theorem c06_no_repeat_model_based_run :
+  forall (C M : Type) (meqb : M -> M -> bool) (ms : C -> M),
+  (forall a b, meqb a b = true <-> a = b) ->
+  forall (init : list C) num_init size retries outer (history : list (mb_event C)),
+  NoDup init ->
+  let s := mb_ctor C M init num_init false size retries outer in
+  mb_new_ids C M meqb ms s history ->
+  let outs := suggested C (snd (mb_run C M meqb ms s history)) in
+  NoDup outs /\ forall pre c post, outs = pre ++ c :: post -> In c init \/ ~ In (ms c) (map ms pre).
+Proof.
+  intros C M meqb ms Hm init ni sz rt outer es Hnd s Hids.
+  exact (mb_no_repeat C M meqb ms Hm init ni sz rt outer es Hnd Hids).
+Qed.
+Print Assumptions c06_no_repeat_model_based_run.
+
+(* DEHB's retry loop for a new trial: a freshly decoded configuration is handed out only if it is
+   not in the exclusion list; when all MAX_RETRIES rounds produced excluded configurations the
+   answer is None, never the last duplicate *)
+Theorem c06_dehb_retry_loop :
+  forall (C M : Type) (meqb : M -> M -> bool) (ms : C -> M),
+  (forall a b, meqb a b = true <-> a = b) ->
+  forall n e (cands : list (dehb_cand C)),
+  (forall c, dehb_retry C M meqb ms n e cands = Some (DNew C c) -> ~ In (ms c) e) /\
+  (dehb_retry C M meqb ms n e cands = None ->
+     (length cands < n)%nat \/
+     exists pre rest, cands = map (DNew C) pre ++ rest /\ length pre = n /\ forall c, In c pre -> In (ms c) e).
+Proof.
+  intros C M meqb ms Hm n e cands. split.
+  - intro c. exact (dehb_retry_new_not_excluded C M meqb ms Hm n e cands c).
+  - exact (dehb_retry_none C M meqb ms Hm n e cands).
+Qed.
+Print Assumptions c06_dehb_retry_loop.
 
 (* what the exclusion list of a tuning-job state contains *)
 Theorem c06_exclusion_list_is_pending_failed_observed :
@@ -227,6 +356,23 @@ Proof.
     destruct H as [H|[]]. discriminate.
 Qed.
 Print Assumptions c06_none_only_when_exhausted_refuted.
+
+(* non-vacuity of the run-level GP theorem and of the resume post-processing *)
+Example c06_example_model_based_run :
+  let idf := fun c : nat => c in
+  let s := mb_ctor nat nat [7%nat] 1 false (Some 4%nat) 100 50 in
+  let hist := [MSuggest nat 0%Z [] [] idf; MNonFinite nat 0%Z; MSuggest nat 1%Z [DCfg 7%nat; DCfg 3%nat] [] idf;
+               MUpdate nat 1%Z 3%nat; MSuggest nat 2%Z [] [3%nat; 5%nat] (fun _ => 7%nat); MFailed nat 2%Z] in
+  mb_new_ids nat nat Nat.eqb idf s hist /\
+  snd (mb_run nat nat Nat.eqb idf s hist) = [Ok (Some 7%nat); Ok (Some 3%nat); Ok (Some 5%nat)].
+Proof. vm_compute. repeat split; auto; intros [H|H]; try discriminate; auto. Qed.
+
+Example c06_example_resume_postprocess :
+  postprocess_config nat nat nat Nat.eqb (fun _ v => v)
+    (with_milestone nat nat Nat.eqb [(1, 40)]%nat 2%nat 3%nat)
+    [(0%nat, EConst 99%nat); (1%nat, EDom 0%nat); (2%nat, EConst 9%nat)]
+  = [(0%nat, OVal 99%nat); (1%nat, OVal 40%nat); (2%nat, OVal 3%nat)].
+Proof. reflexivity. Qed.
 
 (* non-vacuity: concrete runs of the three searchers *)
 Local Open Scope nat_scope.
